@@ -266,8 +266,19 @@ def gen_location(rng, n, tier="quick"):
                     given_phase_dt = given_phase_dt.replace(tzinfo=zoneinfo.ZoneInfo(rng.choice(TZ_NAMES)))
                 kwargs["date"] = given_phase_dt
             state = (shadow["latitude"], shadow["longitude"], shadow_tz, loc.solar_depression)
-            with Recorder() as rec:
-                st, ret = call(getattr(loc, m), *pos, **kwargs)
+            frozen_now = None
+            if m in ("solar_azimuth", "solar_elevation", "solar_zenith") and dt_in is None:
+                # the instant omitted: "now" — read from the library's clock, which is frozen here
+                import corr_norm as _cn
+                frozen_now = datetime.datetime(rng.randint(1950, 2090), rng.randint(1, 12), rng.randint(1, 28),
+                                               rng.randint(0, 23), rng.randint(0, 59), rng.randint(0, 59),
+                                               tzinfo=datetime.timezone.utc)
+                with _cn.FrozenClock(frozen_now):
+                    with Recorder() as rec:
+                        st, ret = call(getattr(loc, m), *pos, **kwargs)
+            else:
+                with Recorder() as rec:
+                    st, ret = call(getattr(loc, m), *pos, **kwargs)
             req = "loc_call %s %s %s %s %s %s %s %s %s %s" % (
                 F(state[0]), F(state[1]), S(state[2]), F(state[3]), m,
                 I(d.toordinal()) if d is not None else N, B(local),
@@ -295,7 +306,13 @@ def gen_location(rng, n, tier="quick"):
                 got_dt = args.get("dateandtime")
                 if dt_in is None:
                     want = "now"
-                    ok_dt = isinstance(got_dt, datetime.datetime) or got_dt is None
+                    # either nothing is handed on (the function reads the clock itself) or the
+                    # clock reading: the frozen instant, as an aware datetime
+                    ok_dt = got_dt is None or (
+                        isinstance(got_dt, datetime.datetime) and got_dt.tzinfo is not None
+                        and frozen_now is not None
+                        and got_dt.astimezone(datetime.timezone.utc).replace(tzinfo=None)
+                        == frozen_now.replace(tzinfo=None))
                 else:
                     w = dt_in if dt_in.tzinfo is not None else dt_in.replace(
                         tzinfo=zoneinfo.ZoneInfo(state[2]))
